@@ -32,6 +32,8 @@ type hCall struct {
 	Doc   []byte // mdop
 	Prep  string // verify: state of the directory (exact | empty)
 	ShareOpt bool // massive calls: use the history's one shared WithMassive option value
+	Reenter  bool // walks: the callback / loop body calls the library itself (at the first visit)
+	ReenterSame bool // ... on the tree being walked (with the same options) instead of on another tree
 	Model *MNode // op: clone of the tree's model at call time (what the result must be a function of)
 	// results
 	Res *opResult
@@ -191,6 +193,20 @@ func execCall(h *hCall, root *gtree.Node, jail string, idx int, yield bool, rw *
 	}
 	ctx := context.Background()
 	opts := opOptions(h.Op, ctx, target)
+	extsGiven := lastExtsGiven
+	if h.Reenter {
+		// the callback (or loop body) of this walk itself uses the library: on another tree, or
+		// on the tree being walked (rendering it with the same options changes nothing)
+		other := gtree.NewRoot("inner")
+		other.Add("x").Add("y")
+		cb.inner = func() {
+			t := other
+			if h.ReenterSame && root != nil {
+				t = root
+			}
+			gtree.OutputFromRoot(io.Discard, t, opts...)
+		}
+	}
 	if h.ShareOpt && h.Op.Massive && sharedMassiveOpt != nil && yield {
 		// the same Option value as other calls of this history use (options are often built once)
 		for i, o := range opts {
@@ -229,6 +245,9 @@ func execCall(h *hCall, root *gtree.Node, jail string, idx int, yield bool, rw *
 	}()
 	if !yield && h.Op.Massive {
 		settleGoroutines()
+	}
+	if t := tampered(opts, extsGiven, h.Op.Exts); t != "" && res.Stale == "" {
+		res.Stale = t
 	}
 	res.Out = string(wr.buf)
 	res.Visits = cb.visits
@@ -509,6 +528,10 @@ func genHistory(c *Ctx, o histOpts) (calls []*hCall, nTasks int, nontrivial bool
 			h := &hCall{Kind: "op", Task: t.owner, Tree: ti, Op: op, Model: t.model.Clone(), ShareOpt: op.Massive && !op.NilCtx && c.Draw(2) == 0}
 			if op.Kind == "verify" {
 				h.Prep = []string{"exact", "empty"}[c.Draw(2)]
+			}
+			if (op.Kind == "walk" || op.Kind == "walkiter") && !op.Massive && c.Chance(1, 4) {
+				h.Reenter = true
+				h.ReenterSame = op.Kind == "walk" && len(op.Branch) == 0 && c.Draw(2) == 0
 			}
 			t.opSeen = true
 			calls = append(calls, h)
